@@ -40,6 +40,7 @@ type Built struct {
 	Prog  string `json:"prog"`
 	Mask  int    `json:"mask"`
 	Old   bool   `json:"old,omitempty"`
+	Lib   bool   `json:"lib,omitempty"` // the library package of an importing program (not registered as a node)
 	Pkg   string `json:"pkg"`
 	OK    bool   `json:"ok"`
 	Stage string `json:"stage,omitempty"` // where it was lost: readfile, generate, compile
@@ -60,6 +61,7 @@ import (
 type job struct {
 	Bop, Out, Pkg string
 	Mask          int
+	Combined      bool
 }
 
 type res struct {
@@ -93,8 +95,13 @@ func one(j job) (r res) {
 	}
 	r.Stage = "generate"
 	var buf bytes.Buffer
+	mode := bebop.ImportGenerationModeSeparate
+	if j.Combined {
+		mode = bebop.ImportGenerationModeCombined
+	}
 	err = bf.Generate(&buf, bebop.GenerateSettings{
 		PackageName:               j.Pkg,
+		ImportGenerationMode:      mode,
 		GenerateUnsafeMethods:     j.Mask&1 != 0,
 		SharedMemoryStrings:       j.Mask&2 != 0,
 		GenerateFieldTags:         j.Mask&4 != 0,
@@ -134,6 +141,7 @@ func main() {
 type gtJob struct {
 	Bop, Out, Pkg string
 	Mask          int
+	Combined      bool
 }
 type gtRes struct {
 	Out      string
@@ -198,7 +206,33 @@ func (w *Work) BuildPrograms(specs []ProgSpec, genOpts instrument.Options, extra
 				if err := os.MkdirAll(dir, 0o755); err != nil {
 					return nil, "", err
 				}
-				jobs = append(jobs, gtJob{Bop: v.bop, Out: filepath.Join(dir, "gen.go"), Pkg: pkg, Mask: m})
+				job := gtJob{Bop: v.bop, Out: filepath.Join(dir, "gen.go"), Pkg: pkg, Mask: m}
+				if sp.Schema.HasLib() && !v.old {
+					// the program imports a library file: one library package per mask
+					// (never private: namespaced imports are assumed exported), and an
+					// importing file that names it
+					libPkg := fmt.Sprintf("%slm%02d", sp.ID, m)
+					libFile := libPkg + ".bop"
+					libPath := filepath.Join(w.H, "bop", libFile)
+					appPath := filepath.Join(w.H, "bop", pkg+".bop")
+					if err := os.WriteFile(libPath, []byte(sp.Schema.PrintLib("verifh/gen/"+libPkg)), 0o644); err != nil {
+						return nil, "", err
+					}
+					if err := os.WriteFile(appPath, []byte(sp.Schema.PrintApp(libFile)), 0o644); err != nil {
+						return nil, "", err
+					}
+					job.Bop = appPath
+					job.Combined = sp.Schema.Combined
+					if !sp.Schema.Combined {
+						libDir := filepath.Join(w.H, "gen", libPkg)
+						if err := os.MkdirAll(libDir, 0o755); err != nil {
+							return nil, "", err
+						}
+						jobs = append(jobs, gtJob{Bop: libPath, Out: filepath.Join(libDir, "gen.go"), Pkg: libPkg, Mask: m &^ OptPrivate})
+						built = append(built, Built{Prog: sp.ID, Mask: m, Pkg: libPkg, Lib: true})
+					}
+				}
+				jobs = append(jobs, job)
 				built = append(built, Built{Prog: sp.ID, Mask: m, Old: v.old, Pkg: pkg})
 			}
 		}
@@ -236,6 +270,16 @@ func (w *Work) BuildPrograms(specs []ProgSpec, genOpts instrument.Options, extra
 			continue
 		}
 		dir := filepath.Dir(r.Out)
+		if b.Lib {
+			st, err := instrument.Dir(dir, "verifh/gen/"+b.Pkg, genOpts, w.Imp, true)
+			if err != nil {
+				b.Stage, b.Err = "instrument", err.Error()
+				continue
+			}
+			w.Stats.Add(st)
+			b.OK = true
+			continue
+		}
 		if err := writeRegistry(dir, b.Pkg); err != nil {
 			b.Stage, b.Err = "registry", err.Error()
 			os.RemoveAll(dir)
@@ -280,6 +324,24 @@ func (w *Work) BuildPrograms(specs []ProgSpec, genOpts instrument.Options, extra
 		}
 		nOK++
 	}
+	// an importing package whose library package was lost is lost with it
+	libOK := map[string]bool{}
+	for _, b := range built {
+		if b.Lib {
+			libOK[fmt.Sprintf("%s/%d", b.Prog, b.Mask)] = b.OK
+		}
+	}
+	for i := range built {
+		b := &built[i]
+		if b.Lib || !b.OK || b.Old {
+			continue
+		}
+		if ok, has := libOK[fmt.Sprintf("%s/%d", b.Prog, b.Mask)]; has && !ok {
+			b.OK, b.Stage, b.Err = false, "library", "the imported library package was excluded"
+			os.RemoveAll(filepath.Join(w.H, "gen", b.Pkg))
+			nOK--
+		}
+	}
 	if nOK == 0 && len(specs) > 0 {
 		return built, "", fmt.Errorf("no generated package survived compilation:\n%s", clip(bout))
 	}
@@ -287,7 +349,7 @@ func (w *Work) BuildPrograms(specs []ProgSpec, genOpts instrument.Options, extra
 	var mb strings.Builder
 	mb.WriteString("package main\n\nimport (\n\t\"verif/pkg/harness\"\n")
 	for _, b := range built {
-		if b.OK {
+		if b.OK && !b.Lib {
 			fmt.Fprintf(&mb, "\t%s \"verifh/gen/%s\"\n", b.Pkg, b.Pkg)
 		}
 	}
@@ -296,7 +358,7 @@ func (w *Work) BuildPrograms(specs []ProgSpec, genOpts instrument.Options, extra
 	}
 	mb.WriteString(")\n\nfunc main() {\n")
 	for _, b := range built {
-		if b.OK {
+		if b.OK && !b.Lib {
 			fmt.Fprintf(&mb, "\tharness.Register(%q, %d, %v, %s.VerifTypes())\n", b.Prog, b.Mask, b.Old, b.Pkg)
 		}
 	}
